@@ -305,3 +305,8 @@ pub fn quotient_compute(
     )
     .map(|q| q.to_vec())
 }
+
+/// `PublicParameters::trim`
+pub fn pp_trim(pp: &PublicParameters, n: usize) -> Result<(CommitKey, OpeningKey), Error> {
+    pp.trim(n)
+}
